@@ -27,6 +27,10 @@ def overlayOp (j : Json) : Json :=
   | "open" => match «open» chain arg with
     | some (k, e) => O [("ok", B true), ("layer", N k), ("entry", entryJson e)]
     | none => O [("ok", B false)]
+  | "stat" => (match stat chain arg with
+    | some (k, true, _) => O [("ok", B true), ("layer", N k), ("dir", B true)]
+    | some (k, false, n) => O [("ok", B true), ("layer", N k), ("dir", B false), ("size", N n)]
+    | none => O [("ok", B false)])
   | "readfile" =>
     -- fs.ReadFile(overlay, p): the overlay has no ReadFile of its own (see Generated.overlayMethods), so this is Open + read:
     -- the file of the first layer that has the path; a directory there is an error
